@@ -223,6 +223,20 @@ func drawValues(t *rapid.T) func(label string) float64 {
 		ratio = gen.LogUniform(t, 1e3, 1e6, "ratioBig")
 	}
 	offset := gen.Sign(t, "sign") * ratio * spread
+	if rapid.IntRange(0, 7).Draw(t, "ulps") == 0 {
+		// adjacent floats: values a few ulps apart, whose running mean rounds onto one of them
+		b := rapid.SampledFrom([]float64{1, 0x1p53, 1e15, 0.1, -3, 1e-300}).Draw(t, "ulpBase")
+		if rapid.Bool().Draw(t, "ulpAtOffset") && offset != 0 {
+			b = offset
+		}
+		return func(label string) float64 {
+			x := b
+			for k := rapid.IntRange(0, 3).Draw(t, label); k > 0; k-- {
+				x = math.Nextafter(x, math.Inf(1))
+			}
+			return x
+		}
+	}
 	if rapid.IntRange(0, 3).Draw(t, "pool") == 0 {
 		// a small pool of exactly representable values: runs of identical values, parts with
 		// exactly equal means, constant parts
